@@ -364,21 +364,25 @@ class BatteryManager(ComponentManager):  # pylint: disable=too-many-instance-att
                 )
                 for battery, inverters in pairs_data
             ),
-            exclusion_lower=min(
-                sum(battery.power_bounds.exclusion_lower for battery, _ in pairs_data),
-                sum(
-                    inverter.active_power_exclusion_lower_bound
-                    for _, inverters in pairs_data
-                    for inverter in inverters
-                ),
+            exclusion_lower=sum(
+                min(
+                    battery.power_bounds.exclusion_lower,
+                    sum(
+                        inverter.active_power_exclusion_lower_bound
+                        for inverter in inverters
+                    ),
+                )
+                for battery, inverters in pairs_data
             ),
-            exclusion_upper=max(
-                sum(battery.power_bounds.exclusion_upper for battery, _ in pairs_data),
-                sum(
-                    inverter.active_power_exclusion_upper_bound
-                    for _, inverters in pairs_data
-                    for inverter in inverters
-                ),
+            exclusion_upper=sum(
+                max(
+                    battery.power_bounds.exclusion_upper,
+                    sum(
+                        inverter.active_power_exclusion_upper_bound
+                        for inverter in inverters
+                    ),
+                )
+                for battery, inverters in pairs_data
             ),
         )
 
